@@ -12,7 +12,7 @@ statement before it, or a new authority-carrying handler appears without one, `a
 -/
 namespace FxVerif.Props.C16
 open FxVerif.Gen.C16 FxVerif.Model.C16
-open FxVerif.Gen (C16Dep.impls C16Dep.helpers C16Dep.types C16Dep.unread C16Sem.proposalExec C16Sem.helpers C16Sem.impls C16Sem.types C16Sem.services C16Sem.registrations C16Sem.msgInfos C16Sem.updateStoreProg)
+open FxVerif.Gen (C16Dep.impls C16Dep.helpers C16Dep.types C16Dep.unread C16Dep.wiring C16Dep.handlerPkgs C16Sem.proposalExec C16Sem.helpers C16Sem.impls C16Sem.types C16Sem.services C16Sem.registrations C16Sem.msgInfos C16Sem.updateStoreProg)
 
 /-- obligation over the regenerated table: every handler is guarded, or forwards to a guarded one -/
 theorem all_handlers_guarded : handlers.all (fun h => shapeOk handlers h.shape) = true := by decide
@@ -526,6 +526,16 @@ theorem dependency_handlers_guarded :
     C16Dep.unread = [] ∧
     C16Dep.impls.all (fun i => depExceptions.contains i.msg ||
       depProtected depProg i.recv i.method == some .strict) = true := by decide
+
+/-- obligation over the regenerated wiring facts: every dependency keeper constructor called in app/keepers/keepers.go that
+has a parameter named `authority` (found in the constructor's declaration in the module cache) is passed `authAddr`
+(= `authtypes.NewModuleAddress(govtypes.ModuleName).String()`, `authority_wired_to_gov`) or the governance module address
+itself; and every package that contributes a dependency handler is constructed there -/
+theorem dependency_authority_wired_to_gov :
+    C16Dep.wiring.all (fun w => w.2.2 == "authAddr" || w.2.2 == "authtypes.NewModuleAddress(govtypes.ModuleName)" ||
+      w.2.2 == "authtypes.NewModuleAddress(govtypes.ModuleName).String()") = true ∧
+    C16Dep.handlerPkgs.all (fun p => C16Dep.wiring.any (fun w => w.1 == p)) = true ∧
+    C16Dep.handlerPkgs.length ≥ 10 := by decide
 
 /-- every dependency handler (all but the listed exception), called directly with an authority string other than the
 keeper's, returns an error and leaves the state untouched — for every payload, state and whatever the rest of the
